@@ -329,6 +329,15 @@ impl<K, S> RodeoReader<K, S> {
     }
 }
 
+#[cfg(lasso_verif)]
+impl<K, S> RodeoReader<K, S> {
+    /// Verification hook (read-only): `(address, capacity, used)` of every storage block
+    #[doc(hidden)]
+    pub fn verif_blocks(&self) -> Vec<(usize, usize, usize)> {
+        self.__arena.verif_blocks()
+    }
+}
+
 unsafe impl<K: Sync, S: Sync> Sync for RodeoReader<K, S> {}
 unsafe impl<K: Send, S: Send> Send for RodeoReader<K, S> {}
 
